@@ -1,6 +1,7 @@
 import SxVerif.Model.Json
 import SxVerif.Spec.Json
 import Driver.Util
+import SxVerif.Model.Plain
 
 /-!
 Driver handlers of component `json` (C14).
@@ -146,6 +147,16 @@ def handleE2EJson : List String → Option String
       | some cs => rs.all Spec.Json.resultWf && Spec.Json.holdsLog uniq rs cs
       | none => false
     pure s!"{charsToHex m}\t{b2s v}"
+  | _ => none
+
+/-- `jplain r1|r2|… <writes>`: the results through the real logger in plain-text mode.  Model = one write per result,
+    `Plain.plainLine`; the verdict is the equality (what `C08.plain_one_line` says about such a write is a theorem) -/
+def handleJPlain : List String → Option String
+  | [rs, obs] => do
+    let rs ← (if rs == "-" then some [] else (rs.splitOn "|").mapM parseResult)
+    let lines ← rs.mapM SxVerif.Plain.plainLine
+    let m := if lines.isEmpty then "-" else ",".intercalate (lines.map hex)
+    pure s!"{m}\t{b2s (obs == m)}"
   | _ => none
 
 /-- N distinct hosts, then repeats of some of them: by `C14_uniq_first_occurrences` the printed lines are
